@@ -306,3 +306,26 @@ Definition run_koenig_traces (nu nv : Z) (edges : list (Z * Z)) (M : list (Z * Z
             | _, _ => None
             end)
   end.
+
+(* ---- equality tests used by the correspondence (sound: ModelProofs.all_eqb_eq) ------- *)
+Fixpoint list_eqb {A : Type} (e : A -> A -> bool) (a b : list A) : bool :=
+  match a, b with
+  | [], [] => true
+  | x :: a', y :: b' => e x y && list_eqb e a' b'
+  | _, _ => false
+  end.
+Definition opt_eqb {A : Type} (e : A -> A -> bool) (a b : option A) : bool :=
+  match a, b with
+  | None, None => true
+  | Some x, Some y => e x y
+  | _, _ => false
+  end.
+Definition pair_eqb {A B : Type} (ea : A -> A -> bool) (eb : B -> B -> bool) (p q : A * B) : bool :=
+  ea (fst p) (fst q) && eb (snd p) (snd q).
+Definition lz_eqb := list_eqb Z.eqb.
+Definition trace_eqb := list_eqb (pair_eqb (pair_eqb Z.eqb lz_eqb) lz_eqb).
+Definition all_eqb :=
+  opt_eqb (pair_eqb (pair_eqb (list_eqb lz_eqb) (list_eqb lz_eqb))
+     (opt_eqb (pair_eqb (pair_eqb (pair_eqb (pair_eqb (list_eqb (pair_eqb Z.eqb Z.eqb)) lz_eqb) lz_eqb) Bool.eqb)
+                        trace_eqb))).
+Definition koenig_eqb := opt_eqb (opt_eqb (pair_eqb (pair_eqb lz_eqb lz_eqb) trace_eqb)).
